@@ -88,13 +88,13 @@ class C11(Check):
     ANCHORS = ['rxsci/data/roll.py', 'rxsci/data/split.py', 'rxsci/data/time_split.py', 'rxsci/operators/group_by.py',
                'rxsci/operators/tee_map.py', 'rxsci/operators/scan.py', 'rxsci/data/batch.py', 'rxsci/operators/multiplex.py']
     REQUIRED_TAGS = ['roll', 'split', 'time_split', 'group_by', 'tee_map', 'batch', 'scan', 'mux', 'plain', 'depth>=2', 'scale'] + PRELUDE_TAGS
-    REQUIRED_OBSERVED = ['outputs_positioned', 'outputs_before_completion', 'outputs_at_completion']
+    REQUIRED_OBSERVED = ['outputs_positioned', 'outputs_before_completion', 'outputs_at_completion', 'cold_scheduler_runs_compared']
 
     def generate(self, rng, tier, shard, nshards):
         return with_prelude(self._generate(rng, tier, shard, nshards), rng, size=lambda c: len(c['items']))
 
     def _generate(self, rng, tier, shard, nshards):
-        n = 20000 if tier == 'quick' else 10 ** 7
+        n = 15000 if tier == 'quick' else 10 ** 7
         for k in range(n):
             if k % 700 == 350:
                 # scale: sizes beyond CPython's small-int cache and typical block sizes (take/batch/lag 257+, roll windows
@@ -155,6 +155,36 @@ class C11(Check):
             late = [g for g, w in zip(got, want) if g[1] == w[1] and g[0] > w[0]]
             early = [g for g, w in zip(got, want) if g[1] == w[1] and g[0] < w[0]]
             out.fail('output-not-at-the-determining-item', late=len(late), early=len(early), n_items=n, **diff)
+            return out
+        if mode == 'plain' and not case.get('prelude'):
+            # the same program on a COLD source subscribed with an explicit scheduler (what rs.run does: a trampoline; also the
+            # immediate one): a journal of "item consumed" / "output" events gives every output its source position, which must be
+            # the position it has in the pushed run
+            import rx
+            import rx.operators as rxops
+            from rx.scheduler import CurrentThreadScheduler, ImmediateScheduler
+            for sched_name, sched in (('CurrentThreadScheduler()', CurrentThreadScheduler()), ('ImmediateScheduler()', ImmediateScheduler())):
+                journal = []
+                ops_ = [rxops.do_action(on_next=lambda x: journal.append('in'), on_completed=lambda: journal.append('end'))] + progs.build(prog)
+                errs = []
+                try:
+                    rx.from_(list(items)).pipe(*ops_).subscribe(on_next=lambda v: journal.append(('out', norm(v))), on_error=errs.append, scheduler=sched)
+                except Exception as e:      # noqa: BLE001
+                    errs.append(e)
+                pos, cold = -1, []
+                for ev in journal:
+                    if ev == 'in':
+                        pos += 1
+                    elif ev == 'end':
+                        pos = n
+                    else:
+                        cold.append((pos, ev[1]))
+                out.observed['cold_scheduler_runs_compared'] += 1
+                if errs or cold != got:
+                    k_ = next((i for i, (a, b) in enumerate(zip(cold, got)) if a != b), min(len(cold), len(got)))
+                    out.fail('output-position-depends-on-the-scheduler', scheduler=sched_name, error=repr(errs[:1]), first_difference=k_,
+                             cold=cold[k_:k_ + 4], pushed=got[k_:k_ + 4], n_cold=len(cold), n_pushed=len(got))
+                    return out
         return out
 
     def shrink(self, case):
